@@ -9,8 +9,8 @@ import (
 
 func init() {
 	register(&PropDef{
-		ID:    "C20",
-		Level: "other",
+		ID:          "C20",
+		Level:       "other",
 		Explanation: "That the kernel delivers a group signal to every member is trusted; decided is that the code asks for it on every path (non-windows configurations): PGID — every exec.Cmd that is started in the module's task-execution code has SysProcAttr{Setpgid: true}; TARGET — the pid argument of every syscall.Kill in the module is the negation of that command's Process.Pid (the whole process group); ESCALATION — the exec handler spawns, whenever the context can end, a watcher that after <-ctx.Done() sends SIGKILL at once when the kill timeout ≤ 0, and otherwise SIGINT plus an unconditional SIGKILL after Sleep(kill timeout), with the timeout wired from the task runner's killTimeout; WAIT — after a successful Start every path calls Wait before returning, and the stdout/stderr writers the runner hands to the compiled task are never bare *os.File values (io.MultiWriter results), so os/exec copies output through a pipe and Wait also covers every descendant that still holds it; ONLY THIS EXECUTOR — commands are executed only through the pgid executor (its exec handler is the one handed to the interpreter), the two other spawn sites (stage/task conditions) are unreachable because their guards read fields that are never set in the module, and every Execute reachable from a task run gets the runner's cancellable context; CANCEL WAITS — every task run is counted in the runner's WaitGroup and Cancel cancels the context and waits for all runs.",
 		Trusted:     []string{"kill(-pgid, sig) reaches every member of the process group", "setpgid keeps descendants in the group unless they leave it", "mvdan/sh hands every external command to the configured ExecHandler"},
 		NotDecided:  []string{"that the kernel delivers to every member", "latency of delivery", "processes that leave their process group (setsid)"},
